@@ -179,6 +179,11 @@ package api
 //@   ensures err == nil ==> int(self.scanned) + self.scanp > old(int(self.scanned) + self.scanp)
 //@   ensures err != nil ==> self.err != nil
 //@   ensures[C06,C17] (err == nil && old(aliases(self.s)) == 0) ==> aliases(self.s) == 0
+// value framing (C17: independent of chunking): when the byte just before the decoder's
+// position is a digit - a number was decoded and no white space skipped - the next byte
+// of the STREAM, if there is one, is not a digit (the number was taken whole).  The
+// position is $rpos - len(buf) + scanp, the stream offset of buf[scanp].
+//@   ensures[C17] (err == nil && $rpos - len(self.buf) + self.scanp >= 1 && native.isDigit($rin[$rpos - len(self.buf) + self.scanp - 1]) && $rpos - len(self.buf) + self.scanp < $rend) ==> !native.isDigit($rin[$rpos - len(self.buf) + self.scanp])
 //@   loop 0: invariant sdOK(self) && self.r != nil && minLeftBufferShift == 1 && $rpos >= 0 && $rpos <= 4611686018427387904
 //@   loop 0: invariant sdSync(self)
 //@   loop 0: invariant self.err == nil && old(self.err) == nil && 0 <= s && s < len(self.buf) && int(self.scanned) + s >= old(int(self.scanned) + self.scanp)
